@@ -1,5 +1,8 @@
 import TinkVerif.Model.Cmac
 import TinkVerif.Model.Mac
+import TinkVerif.Model.Hmac
+import TinkVerif.Model.Siv
+import TinkVerif.Model.Kwp
 import TinkVerif.Prim.Hash
 import TinkVerif.Prim.Aes
 import Driver.Util
@@ -33,6 +36,16 @@ def fullCmac? (strict : Bool) (key : Bytes) (tagSize : Nat) (v : Variant) (id : 
   else (aesE? key).map fun E =>
     { pre := outputPrefix v id, variant := v, raw := fun m => (Cmac.compute E m).take tagSize }
 
+/-- generic RFC 2104 HMAC (Model) over the reference hash -/
+def hmacM (a : HashAlg) (key msg : Bytes) : Bytes :=
+  Hmac.hmac (fun b => (hash a b.toByteArray).toList) a.blockLen key msg
+
+def optBytes? (s : String) : Option (Option Bytes) :=
+  if s == "~" then some none else (bytesOfTok? s).map some
+
+def okB (o : Option Bytes) : String := match o with | none => "err" | some b => s!"ok {tokOfBytes b}"
+def okR (o : Option Bytes) : String := match o with | none => "reject" | some b => s!"ok {tokOfBytes b}"
+
 def okTag (m : Option Mac.FullMac) (msg : Bytes) : String :=
   match m with
   | none => "err"
@@ -62,6 +75,51 @@ def handle (toks : List String) : Option String :=
     match Cmac.xorEndAndCompute E (← bytesOfTok? data) (← bytesOfTok? last) with
     | none => pure "err"
     | some t => pure s!"ok {tokOfBytes t}"
+  | ["xorendspec", key, data, last] => do
+    let E ← aesE? (← bytesOfTok? key)
+    pure (tokOfBytes (Cmac.compute E (Cmac.xorend (← bytesOfTok? data) (← bytesOfTok? last))))
+  | ["prf", "hmac", h, key, inp, n] => do
+    let a ← hashAlg? h
+    let n ← n.toNat?
+    if n > a.digestLen then pure "err" else
+    pure (okB (some ((hmacM a (← bytesOfTok? key) (← bytesOfTok? inp)).take n)))
+  | ["prf", "hkdf", h, key, salt, inp, n] => do
+    let a ← hashAlg? h
+    -- x/crypto hkdf: nil salt = hashLen zero bytes (same HMAC key as the empty string)
+    pure (okB (Hmac.hkdf (hmacM a) a.digestLen (← bytesOfTok? key) (← bytesOfTok? salt) (← bytesOfTok? inp) (← n.toNat?)))
+  | ["prf", "cmac", key, inp, n] => do
+    let n ← n.toNat?
+    let E ← aesE? (← bytesOfTok? key)
+    if n > 16 then pure "err" else pure (okB (some ((Cmac.compute E (← bytesOfTok? inp)).take n)))
+  | ["hkdf", h, key, salt, info, n] => do
+    let a ← hashAlg? h
+    pure (okB (Hmac.computeHKDF (hmacM a) a.digestLen (← bytesOfTok? key) (← bytesOfTok? salt) (← bytesOfTok? info) (← n.toNat?)))
+  | ["siv", key, v, id, pt, ad] => do
+    let key ← bytesOfTok? key
+    if key.length ≠ 64 then pure "err" else
+    let E1 ← aesE? (key.take 32); let E2 ← aesE? (key.drop 32)
+    pure s!"ok {tokOfBytes (Siv.encrypt E1 E2 (outputPrefix (← Variant.ofCode? v) (← id.toNat?)) (← bytesOfTok? pt) (← bytesOfTok? ad))}"
+  | ["sivd", key, v, id, ct, ad] => do
+    let key ← bytesOfTok? key
+    if key.length ≠ 64 then pure "err" else
+    let E1 ← aesE? (key.take 32); let E2 ← aesE? (key.drop 32)
+    pure (okR (Siv.decrypt E1 E2 (outputPrefix (← Variant.ofCode? v) (← id.toNat?)) (← bytesOfTok? ct) (← bytesOfTok? ad)))
+  | ["s2v", key, msg, ad] => do
+    let E ← aesE? (← bytesOfTok? key)
+    pure (tokOfBytes (Siv.s2v E (← bytesOfTok? msg) (← bytesOfTok? ad)))
+  | ["s2vspec", key, msg, ad] => do
+    let E ← aesE? (← bytesOfTok? key)
+    pure (tokOfBytes (Siv.s2vSpec E (← bytesOfTok? msg) (← bytesOfTok? ad)))
+  | ["kwp", kek, data] => do
+    let kek ← bytesOfTok? kek
+    if kek.length ≠ 16 ∧ kek.length ≠ 32 then pure "err" else
+    let E ← aesE? kek
+    pure (okB (Kwp.wrap E (← bytesOfTok? data)))
+  | ["kwpu", kek, w] => do
+    let kek ← bytesOfTok? kek
+    if kek.length ≠ 16 ∧ kek.length ≠ 32 then pure "err" else
+    let D ← aesD? kek
+    pure (okR (Kwp.unwrap D (← bytesOfTok? w)))
   | _ => none
 
 end Driver.Sym
